@@ -350,7 +350,9 @@ func (cv1 *HookConfigV1) ConvertSchedule(schV1 ScheduleConfigV1) (htypes.Schedul
 func (cv1 *HookConfigV1) CheckSchedule(kubeConfigs []htypes.OnKubernetesEventConfig, schV1 ScheduleConfigV1) error {
 	var allErr error
 
-	if _, err := cron.Parse(schV1.Crontab); err != nil {
+	if err := CheckCrontabSteps(schV1.Crontab); err != nil {
+		allErr = multierror.Append(allErr, fmt.Errorf("crontab is invalid: %w", err))
+	} else if _, err := cron.Parse(schV1.Crontab); err != nil {
 		allErr = multierror.Append(allErr, fmt.Errorf("crontab is invalid: %w", err))
 	}
 
